@@ -263,6 +263,20 @@ def build(tier="quick", seed=0):
 
             pack.add(Obligation(name, run, replay=lambda w: {"call": "c08_reader", "args": {"expr": w.get("expr"), "engine": w.get("engine")}}, functions=fu + ("flow.record.stream:RecordStreamReader.__iter__",), mode="one reader over a concrete stream of four record types"))
 
+    # the other operand is a field that holds a nested RECORD (record / record[] field types)
+    for eng in ("Selector", "CompiledSelector"):
+        for expr in ("r.sub != r.missing", "r.sub == r.missing", "r.missing != r.sub", "r.sub < r.missing", "r.missing in r.subs", "r.subs != r.missing", "r.sub != r.missing or r.missing == r.sub"):
+            name = f"C08.record_operand[{eng}, {expr}]"
+
+            def th(eng=eng, expr=expr):
+                A = it.call(RD, ["c08/inner", [("string", "s")]], {})
+                B = it.call(RD, ["c08/holder", [("record", "sub"), ("record[]", "subs")]], {})
+                b = it.call(B, [], {"sub": it.call(A, [], {"s": "x"}), "subs": [it.call(A, [], {"s": "y"})]})
+                return it.call(it.getattr_(it.call(sel.g[eng], [expr], {}), "match"), [b], {})
+
+            pack.add(Obligation(name, lambda tier, name=name, th=th, expr=expr, eng=eng: prove_paths(name, th, lambda p: falsy(p.value), lambda m, p: {"expr": expr, "engine": "interp" if eng == "Selector" else "compiled"}), replay=lambda w: {"call": "c08_record_operand", "args": {"expr": w["expr"], "engine": w["engine"]}}, functions=fu,
+                                mode="missing field against a nested record / list of records"))
+
     # plain JSON lines (no descriptors): a line that lacks a key is a record WITHOUT that field, whatever the lines before it looked like
     JSON_LINES = ['{"id": 1, "user": "root", "port": 22}\n', '{"id": 2}\n', '{"id": 3, "user": "www", "port": 80}\n', '{"id": 4, "port": 443}\n']
     JSON_CASES = {"r.user != 'root'": [3], "r.user == None": [], "r.port >= 80": [3, 4], "not (r.user == 'www')": [1, 2, 4], "r.port < 100 or r.user == 'nobody'": [1, 3], "r.user not in ['root']": None}
